@@ -43,10 +43,13 @@ if hard:
 for c in conflicts:
     if c.startswith("evidence/"):
         sh(["git", "checkout", "--theirs", c])
-ids = {f["id"] for f in ours_kf["findings"]}
+# union by id; for the builder's own property the builder's version of an entry replaces ours
+ours_by_id = {f["id"]: i for i, f in enumerate(ours_kf["findings"])}
 for f in theirs_kf["findings"]:
-    if f["id"] not in ids:
+    if f["id"] not in ours_by_id:
         ours_kf["findings"].append(f)
+    elif f.get("property") == pid[:3]:
+        ours_kf["findings"][ours_by_id[f["id"]]] = f
 json.dump(ours_kf, open(os.path.join(ROOT, "known_findings.json"), "w"), indent=1)
 sh([sys.executable, os.path.join(ROOT, "tools", "mkmanifest.py")], check=True)
 sh(["git", "add", "-A"])
